@@ -89,8 +89,8 @@ EXPLANATION = ("Theorems (Props/C06.lean) about the definitions drv_c06 runs: al
                "denominators; mcc_of_obs: two aligned collections with the same observable and rows up to order report, through "
                "their own mccIndex, trees of the same (rational) score, and of the same topology when the maximiser is unique. "
                "history_final_rooting_flags: final settings and rooting of every array. summaries_of_obs / summaries_of_histories: per-split "
-               "multisets, sizes, mean edge length and mean node age are functions of the observable (means also compared with the code; median, sd "
-               "and range are compared with brute force by the oracle only). "
+               "multisets, sizes, mean edge length and mean node age are functions of the observable (means also compared with the code; the median "
+               "is compared with brute force by the oracle only). "
                "The ghost semantics ghostRun is printed by the driver and compared with the harness's book-keeping of held trees. "
                "async_sentinel_every_file_once / sumtrees_async_schedule_independent: queue-level worker protocol with asynchronous "
                "put (Model/C06Proto.lean, driver op async): with blocking get and one end marker per worker every schedule of "
@@ -107,7 +107,13 @@ EXPLANATION = ("Theorems (Props/C06.lean) about the definitions drv_c06 runs: al
                "search() (run when tie A is unavailable, an obligation broke or the correspondence disagreed) starts with 96 histories of collections whose "
                "settings are equal by value but distinct objects (every merge op, direct / pickled / deep-copied source, node ages tracked), then the merge decision "
                "table, burn-in reads, small exhaustive schedules incl. node ages, and one genuine multi-process CLI run with --summarize-node-ages. "
-               "Not proved: that a parallel run over sources of mixed rooting fails under EVERY schedule whenever the serial run fails (correspondence only).")
+               "Wave 2: spread_of_obs (the sample variance - sd squared - of the edge lengths and node ages collected per split, computed exactly, is a function of "
+               "the observable), range_of_obs (so are minimum and maximum, as rationals), both also dumped by the driver and compared with the code's var / range; "
+               "collation_count_bridge (the number of results the parent waits for is a regenerated kernel - temporaries, min/max and len(tree_sources) inlined - and equals "
+               "one per worker) and fewer_results_lose_a_file (any smaller count, e.g. min(workers, files), returns an empty summary under a witness schedule where the serial "
+               "run counts a tree); serial_ok_every_schedule_ok (from the serial outcome alone: if the serial run over sources with definite rooting states succeeds, every "
+               "schedule of the parallel run succeeds with the same observable - so a parallel failure implies a serial failure). "
+               "Not proved: the median of the per-split summaries (oracle only); that a parallel run over sources of mixed rooting fails under EVERY schedule whenever the serial run fails (correspondence only).")
 
 ASYNC_IN_QUICK = True           # asynchronous-delivery schedules are explored in both tiers
 THETA = Fraction(3, 5)          # majority-rule threshold of the brute-force consensus oracle (all candidates compatible)
@@ -335,6 +341,21 @@ def canon_impl(ta, theta_float, full):
     c["freq"] = sorted([str(k), repr(float(v))] for k, v in sd.split_frequencies.items())
     lens, ages = sd.split_edge_length_summaries, sd.split_node_age_summaries
     c["means"] = sorted([str(k), lens[k]["mean"] if k in lens else None, ages[k]["mean"] if k in ages else None] for k in sd.split_counts)
+
+    def var_of(t, k):
+        if k not in t:
+            return None
+        v = t[k].get("var")
+        if v is None and t[k].get("sd") is not None:
+            v = t[k]["sd"] ** 2
+        return None if (v is None or v == float("inf")) else v
+
+    def rng_of(t, k, j):
+        r = t[k].get("range") if k in t else None
+        return None if r is None else r[j]
+    # sample variance (sd squared) and range of the values collected per split: exact rationals in the model
+    c["spread"] = sorted([str(k), var_of(lens, k), var_of(ages, k), rng_of(lens, k, 0), rng_of(lens, k, 1), rng_of(ages, k, 0), rng_of(ages, k, 1)]
+                         for k in sd.split_counts)
     return c
 
 
@@ -377,6 +398,8 @@ def parse_dump(p):
     c["freq"] = sorted([k, repr(float(Fraction(v)))] for k, v in freq)
     means = p.lst(lambda: [p.tok(), p.tok(), p.tok()])
     c["means"] = sorted([k, None if a == "N" else float(Fraction(a)), None if b == "N" else float(Fraction(b))] for k, a, b in means)
+    spread = p.lst(lambda: [p.tok() for _ in range(7)])
+    c["spread"] = sorted([x[0]] + [None if v == "N" else float(Fraction(v)) for v in x[1:]] for x in spread)
 
     def qs():
         n = int(p.tok())
@@ -1258,6 +1281,9 @@ def compare_model(ctx, case, line, results, canons, out):
         if means_differ(ci["means"], cm["means"]):
             ctx.disagree("hist array %d mean edge length / node age per split" % i, case, ci["means"], cm["means"])
             return
+        if means_differ(ci["spread"], cm["spread"]):
+            ctx.disagree("hist array %d variance / range of the edge lengths and node ages per split" % i, case, ci["spread"], cm["spread"])
+            return
         if (scores is None) != (qerr is not None and "AssertionError" in qerr):
             if qerr is None or scores is None:
                 ctx.disagree("hist array %d queries" % i, case, qerr or "queries ok", "scores %s" % ("assert" if scores is None else "ok"))
@@ -1991,7 +2017,7 @@ def compare_async(ctx, case, results, canons, out):
             ctx.disagree("async: outcome of the serial run over the same sources", case, results[1], mser)
 
 
-def gen_sched_files(rng, nfiles, max_taxa=6, max_trees=3, allow_empty_file=False, force_ages=None):
+def gen_sched_files(rng, nfiles, max_taxa=6, max_trees=3, allow_empty_file=False, force_ages=None, allow_subsets=True):
     ntaxa = rng.randint(4, max_taxa)
     weights = rng.random() < 0.4
     ages = rng.random() < 0.4
@@ -1999,6 +2025,8 @@ def gen_sched_files(rng, nfiles, max_taxa=6, max_trees=3, allow_empty_file=False
         ages = force_ages
     ties = rng.random() < 0.3          # few distinct topologies, each repeated: exact frequency ties between conflicting splits
     subsets = rng.random() < 0.15      # some trees lack a taxon
+    if not allow_subsets:
+        subsets = False       # (the command-line program takes its taxa from the first tree of the first source)
     flags = [0 if ages or rng.random() < 0.75 else 1, 0 if ages else 1, 1 if weights or rng.random() < 0.6 else 0]
     files = []
     pool = []
@@ -2378,7 +2406,7 @@ def thorough(ctx, dendropy, pending):
     ctx.extra["exhaustive_async"] = "; ".join(adone)
     # (3) genuine multi-process runs of the command-line program, each repeated (scheduling differs from run to run)
     for mp, ages in ((["-M"], False), (["-m", "2"], True), (["-m", "3"], False), (["-M"], True), (["-m", "3"], True)):
-        base = gen_sched_files(rng, rng.choice([2, 3]), max_taxa=5, max_trees=2, allow_empty_file=False, force_ages=ages)
+        base = gen_sched_files(rng, rng.choice([2, 3]), max_taxa=5, max_trees=2, allow_empty_file=False, force_ages=ages, allow_subsets=False)
         base.update(mode="cli", mp=mp, rooted=True if ages else None, token=None, flags=[0, 0 if ages else 1, 1], cli_ages=ages)
         for rep_ in range(5 if not ages else 3):
             if ctx.time_left() < 30:
@@ -2478,7 +2506,7 @@ def search(ctx, broken):
             return
     ctx.extra.pop("_last_trace", None)
     # a genuine multi-process run with node ages and an explicit precision against the serial run
-    base = gen_sched_files(rng, 2, max_taxa=5, max_trees=2, force_ages=True)
+    base = gen_sched_files(rng, 2, max_taxa=5, max_trees=2, force_ages=True, allow_subsets=False)
     base.update(mode="cli", mp=["-m", "2"], rooted=True, token=None, flags=[0, 0, 1], cli_ages=True, burnin=0)
     try:
         exec_cli(ctx, dendropy, base)
